@@ -17,7 +17,8 @@ pub fn generate(seed: u64, tier: &str, sink: &mut Sink) {
     let paths = ["", "/", "/a/b%20c"];
     let queries = [None, Some("x=1&y=%C3%A9")];
     let frags = [None, Some("frag")];
-    let users = [None, Some("user"), Some("user:p%40ss")];
+    // userinfo forms: none / name only / name and password / password only (empty name) / empty password
+    let users = [None, Some("user"), Some("user:p%40ss"), Some(":s3cret"), Some("user:")];
     // proxies: none / http proxy / https proxy, with and without credentials
     let proxies: [Option<&str>; 5] = [None, Some("http://proxy.test:3128"), Some("http://pu:pp@proxy.test"), Some("https://sproxy.test"), Some("https://pu:pp@sproxy.test:8443")];
     for sc in schemes {
@@ -116,7 +117,7 @@ pub fn generate(seed: u64, tier: &str, sink: &mut Sink) {
                                         if target.contains('#') || fr.map_or(false, |f| target.contains(f)) {
                                             return Err((format!("fragment-in-target-{}", mode), format!("target {:?}", target)));
                                         }
-                                        if target.contains('@') || target.contains("user") || target.contains("p%40ss") {
+                                        if target.contains('@') || target.contains("user") || target.contains("p%40ss") || target.contains("s3cret") {
                                             return Err((format!("credentials-in-target-{}", mode), format!("target {:?}", target)));
                                         }
                                         let expect = if mode == "http-via-proxy" { format!("http://{}{}", authority, origin) } else { origin.clone() };
